@@ -55,6 +55,18 @@ CHECKS = [
            "compared before/after); random grids/fields validated by FlowGridTrace.tla.",
       note="integer-valued fields; cyclic grids only required to terminate",
       technique=TLA),
+ dict(property_id="C07", category="model_checking", design_ref="3.6",
+      text="GridGeom.tla states the footprint/centre/row-major/neighbour contract in quarter-cell integer geometry and TLC checks the kernels' "
+           "floor-based arithmetic against it for every grid shape and every lattice point around it (and that truncation is wrong); every shape is "
+           "replayed on real grids under exactly representable geometries over 8 orders of magnitude; random large shapes are validated by GridGeomTrace.tla.",
+      note="cell size 2^k, origin a multiple of it: rounding never decides the cell; points on cell edges excluded",
+      technique=TLA),
+ dict(property_id="C16", category="model_checking", design_ref="3.7",
+      text="GridWeights.tla: TLC checks the loop models of c_intersect / c_voronoi against footprint counts and nearest-point sets for every cell "
+           "subset of the fine grid, 9 coarser grids and 6 point sets; every state is replayed through Catchment.intersect (weights, cells, weight-grid "
+           "placement) and voronoi; random delineated catchments on grids up to 12x12 are validated by GridWeightsTrace.tla.",
+      note="centres never exactly on a coarse edge; exact geometries",
+      technique=TLA),
 ]
 
 _PENDING = "check not built yet in this round; see DESIGN.md section 3 for the planned specification"
